@@ -698,7 +698,15 @@ class Engine(object):
         ctx.notes.append('external %s: default contract (any result, may raise any Exception)' % fv.name)
         self.used_default_externals = getattr(self, 'used_default_externals', set())
         self.used_default_externals.add(fv.name)
-        r = self.unknown_outcome(ctx, fv.name, node)
+        try:
+            r = self.unknown_outcome(ctx, fv.name, node)
+        except RaiseSig as rs:
+            # an exception invented by the default contract of an unmodelled external is not a counterexample:
+            # remember it, so that an obligation it refutes ends undecided ("needs a contract"), never a violation
+            z = getattr(rs.exc, 'z', None)
+            if z is not None:
+                ctx.__dict__.setdefault('default_ext_excs', {})[z.get_id()] = fv.name
+            raise
         if is_class and self.classes.has(fv.name):
             ctx.assume(issub(cls_of(r.z), self.classes.const(fv.name)))
             ctx.assume(r.z != Z.NONE)
@@ -1128,9 +1136,14 @@ class Engine(object):
         if c.may_raise_any:
             allowed = Z.TRUE
         desc = self.describe_exc(ctx, exc)
+        xtra = {'exception': desc, 'line': lineno}
+        dz = getattr(exc, 'z', None)
+        dflt = getattr(ctx, 'default_ext_excs', {}).get(dz.get_id()) if dz is not None and not isinstance(exc, VRef) else None
+        if dflt is not None:
+            xtra['default_external'] = dflt
         ctx.oblige('%s/raises' % fname, allowed, 'K', rs.node,
                    note='exception %s escapes at line %s; allowed: %s' % (desc, lineno, sorted(c.raises) or 'none'),
-                   extra={'exception': desc, 'line': lineno})
+                   extra=xtra)
         for cls, cond, m in matches:
             if cond is not None and not Z.is_false(m):
                 g = self._eval_in_old(ctx, sfr, cond)
